@@ -58,11 +58,19 @@ theorem double_transpose_leaf (u : Nat) (c : LeafCls) (p : Params) (hc : isWrapp
 theorem symmetric_returns_self (u : Nat) (c : LeafCls) (p : Params) (h : isSymmetricLeaf c = true) :
     transposeOp (.leaf u c p) = .ok (.leaf u c p) := transpose_symmetric_leaf u c p h
 
+/-- `A.T` of a structurally well-formed expression (what the constructors build) is structurally well formed,
+for every expression (compositions, sums, block row / diagonal / column, every wrapper, every leaf class) -/
+theorem transpose_structOK (o t : Op) (hok : StructOK o) (hw : o.WFT) (h : transposeOp o = .ok t) :
+    StructOK t := transpose_StructOK o t hok hw h
+
 /-- **adjointness lifts from leaves to every composition and sum, nested to any depth**:
-`⟨A x, y⟩ = ⟨x, A.T y⟩` whenever every leaf and wrapper transposes to its adjoint -/
+`⟨A x, y⟩ = ⟨x, A.T y⟩` whenever every leaf and wrapper transposes to its adjoint, for every structurally
+well-formed expression `A` (`StructOK`: the framework's law `honest` is demanded of those only; it implies the
+typing hypothesis `WTAll`, see `AdjCore.transpose_adjoint_of_StructOK`) -/
 theorem transpose_is_adjoint {V R : Type} [Add R] [Zero R] (C : AdjCore V R) (hL : C.LeafAdjoint) (o t : Op)
-    (hf : Frag o) (hwt : o.WTAll) (hw : o.WFT) (h : transposeOp o = .ok t) : C.IsAdjointOn o t :=
-  AdjCore.transpose_adjoint C hL o t hf hwt hw h
+    (hf : Frag o) (hok : StructOK o) (hwt : o.WTAll) (hw : o.WFT) (h : transposeOp o = .ok t) :
+    C.IsAdjointOn o t :=
+  AdjCore.transpose_adjoint C hL o t hf hok hwt hw h
 
 /-- the framework is inhabited -/
 theorem framework_inhabited : Nonempty (AdjCore Unit Nat) := ⟨AdjCore.unitModel⟩
